@@ -239,7 +239,7 @@ def run_tlc(ctx, name, module_text, cfg_text, workers=1, simulate=None, depth=No
         raise MachineryError("TLC %s timed out after %ds" % (name, timeout))
     res.wall = time.time() - t0
     if os.environ.get("VERIF_VERBOSE"):
-        print("[tlc] %s %.1fs generated=%d distinct=%d" % (name, res.wall, res.generated, res.distinct))
+        print("[tlc] %s %.1fs generated=%d distinct=%d" % (name, res.wall, res.generated, res.distinct), flush=True)
     res.errtext = "\n".join(errbuf)
     res.ok = (res.error is None and proc.returncode == 0)
     if res.error_kind == "other" or (res.error is None and proc.returncode != 0):
